@@ -499,6 +499,7 @@ fn meaning(h: &Hdr, ops: &[Op]) -> Option<Meaning> {
                 base = *a;
                 base_off = prev_ao;
                 cur_addr = *a;
+                prev_opi = 0; // DW_LNE_set_address resets op_index
             }
             Op::Row(r) => {
                 in_seq = true;
@@ -714,7 +715,7 @@ fn readback(h: &Hdr, m: &Meaning, dl: &[u8], dls: &[u8], ds: &[u8]) -> Result<()
                 };
                 if !ok {
                     return Err(format!(
-                        "row{}:addr={:#x},op={},line={:?},end={}:want:addr={:#x},op={},line={},end={}",
+                        "row{}:addr={:#x};op={};line={:?};end={}:want:addr={:#x};op={};line={};end={}",
                         k,
                         r.address(),
                         r.op_index(),
@@ -851,7 +852,7 @@ pub fn run(t: &[&str]) -> String {
                 Out::Panic => "panic".to_string(),
             }
         }
-        "c13.prog" => {
+        "c13.prog" | "c13.edge" => {
             let mut tk = Tk { t, i: 1 };
             let h = tk.hdr();
             let ops = tk.ops();
